@@ -122,6 +122,12 @@ pub fn bootstrap_persists_tip() -> bool {
 }
 
 pub fn key_of_uid(uid: u64) -> (SecretKey, PublicKey) {
+    // odd ids hold the NEGATED key of the even id below: same x coordinate, other parity - two distinct users
+    // (anything that identifies a user by less than the full 33-byte key confuses them)
+    if uid % 2 == 1 {
+        let sk = key_of_uid(uid - 1).0.negate();
+        return (sk, PublicKey::from_secret_key(&Secp256k1::new(), &sk));
+    }
     let mut b = [0x11u8; 32];
     b[..8].copy_from_slice(&(uid + 1).to_be_bytes());
     b[31] = 7;
